@@ -334,7 +334,7 @@ func (p *parser) resolveModuleImport(importStmt *ast.ImportStmt) {
 		case *ast.FuncDecl:
 			aliases = append(aliases, toInterfaceSlice[*ast.FuncAlias, ast.Alias](decl.Aliases)...)
 			if ast.IsOperatorOverload(decl) {
-				p.insertOperatorOverload(decl)
+				p.insertOperatorOverloadAt(decl, tok.Range)
 			}
 		case *ast.StructDecl:
 			aliases = append(aliases, toInterfaceSlice[*ast.StructAlias, ast.Alias](decl.Aliases)...)
@@ -470,6 +470,12 @@ func (p *parser) addAliases(aliases []ast.Alias, errRange token.Range) {
 }
 
 func (p *parser) insertOperatorOverload(decl *ast.FuncDecl) {
+	p.insertOperatorOverloadAt(decl, decl.NameTok.Range)
+}
+
+// like insertOperatorOverload, but reports a conflict at errRange
+// (for imported overloads: the import statement, decl.NameTok is in another file)
+func (p *parser) insertOperatorOverloadAt(decl *ast.FuncDecl, errRange token.Range) {
 	overloads := p.Operators[decl.Operator]
 
 	for _, overload := range overloads {
@@ -479,7 +485,7 @@ func (p *parser) insertOperatorOverload(decl *ast.FuncDecl) {
 				continue
 			}
 
-			p.err(ddperror.SEM_OVERLOAD_ALREADY_DEFINED, decl.NameTok.Range, fmt.Sprintf("Der Operator '%s' ist für diese Parametertypen bereits überladen", decl.Operator))
+			p.err(ddperror.SEM_OVERLOAD_ALREADY_DEFINED, errRange, fmt.Sprintf("Der Operator '%s' ist für diese Parametertypen bereits überladen", decl.Operator))
 			return
 		}
 	}
